@@ -15,6 +15,9 @@ from .core import (SV, Bag, Unsupported, Val, VNone, VInt, VBool, VRef, VStr, VI
                    from_py, Int, Bool, Str)
 from .symex import Exc
 
+NAMEDTUPLES = {"Edge": ["source", "target", "label"], "EdgeLabel": ["type", "conditional", "direct"],
+               "Offset": ["element_id", "displacement"]}
+
 # in_range(x, start, stop, step): Python's ``x in range(start, stop, step)`` for step >= 1, kept
 # uninterpreted apart from the facts the proofs need (avoids non-linear mod).
 InRange = z3.Function("InRange", Int, Int, Int, Int, Bool)
@@ -61,7 +64,7 @@ FIELD_CLASSES = {
     "_node": None, "_interval_tree": "LazyIntervalTree", "_interval_index": None,
     "byte_intervals": "Section._ByteIntervalSet", "blocks": "ByteInterval._BlockSet",
     "modules": "IR._ModuleList", "cfg": "CFG", "_symbolic_expressions": "ByteInterval._SymbolicExprDict",
-    "_value_collection": None,
+    "_value_collection": None, "_nxg": "$Graph",
 }
 
 # (class, attr) specific overrides
@@ -88,6 +91,9 @@ class Schema:
         for i, q in enumerate(sorted(prog.classes)):
             self._ids[q] = i + 1
         self._ids["$IntervalTree"] = 900
+        self._ids["$Graph"] = 901
+        from .nxmodel import NxModel
+        self.nx = NxModel()
         self.axioms = in_range_axioms()
 
     # ----------------------------------------------------------- classes
@@ -153,6 +159,9 @@ class Schema:
             return z3.ArraySort(Int, Bool)
         if key == "$modpos":
             return z3.ArraySort(Int, Int)
+        from .nxmodel import GSORTS
+        if key in GSORTS:
+            return GSORTS[key]
         base = key.split("#")[0]
         kind = None
         for (k, knd, _c) in FIELDS.values():
@@ -257,6 +266,8 @@ class Schema:
 
     # ----------------------------------------------------------- hooks with defaults
     def isinstance_special(self, eng, sv, clsname, st):
+        if clsname in NAMEDTUPLES:
+            return z3.BoolVal(sv.cls == clsname)
         if clsname in ("Iterable", "typing.Iterable"):
             return z3.BoolVal(sv.k in ("set", "list", "tuple", "gen", "dict", "range", "bytes"))
         return None
@@ -265,16 +276,32 @@ class Schema:
         return False
 
     def get_item_special(self, eng, cont, idx, st):
+        if cont.k in ("ref", "val") and cont.cls == "$Graph":
+            return self.nx.getitem(eng, cont, idx, st)
+        if cont.k == "nx_adj":
+            return self.nx.adj_getitem(eng, cont, idx, st)
+        if cont.k == "nx_attr":
+            return self.nx.attr_getitem(eng, cont, idx, st)
         return None
 
     def contains_special(self, eng, cont, item, st):
-        if cont.cls == "$IntervalTree":
-            return None
+        if cont.cls == "$Graph":
+            return self.nx.contains(eng, cont, item, st)
         return None
 
     def get_attr_special(self, eng, obj, attr, st):
-        if obj.k in ("ref", "val") and obj.cls == "$IntervalTree":
+        if obj.k in ("ref", "val") and obj.cls in ("$IntervalTree", "$Graph"):
             return SV("boundbuiltin", x=(obj, attr))
+        if obj.k == "nx_keydict":
+            return SV("boundbuiltin", x=(obj, attr))
+        if obj.k == "tuple" and obj.cls in NAMEDTUPLES and attr in NAMEDTUPLES[obj.cls]:
+            return obj.x[NAMEDTUPLES[obj.cls].index(attr)]
+        if obj.k == "val" and obj.cls in NAMEDTUPLES and attr in NAMEDTUPLES[obj.cls]:
+            t = obj.t
+            for _ in range(NAMEDTUPLES[obj.cls].index(attr)):
+                t = snd(t)
+            fc = {"label": "EdgeLabel", "source": "CfgNode", "target": "CfgNode", "type": "EdgeType"}.get(attr)
+            return SV("val", fst(t), cls=fc, x="enum" if attr == "type" else None)
         if obj.k == "val" and attr in ("begin", "end", "data") and obj.cls is None:
             # dynamically-typed interval (e.g. element of an IntervalTree)
             st.oblige("safety.is_interval(.%s)" % attr, is_VIv(obj.t))
@@ -297,6 +324,18 @@ class Schema:
         return InRange(x, a, b, s)
 
     def construct_special(self, eng, ci, args, kwargs, st):
+        if ci.qual in NAMEDTUPLES:
+            names = NAMEDTUPLES[ci.qual]
+            vals = list(args) + [None] * (len(names) - len(args))
+            for k, v in kwargs.items():
+                vals[names.index(k)] = v
+            defaults = {"Edge": {"label": sv_none()}, "EdgeLabel": {"conditional": sv_bool(False), "direct": sv_bool(True)}}
+            for i, n in enumerate(names):
+                if vals[i] is None:
+                    vals[i] = defaults.get(ci.qual, {}).get(n)
+                    if vals[i] is None:
+                        raise Unsupported("missing field %s of %s" % (n, ci.qual))
+            return SV("tuple", x=vals, cls=ci.qual)
         return None
 
     def bytes_repeat(self, eng, by, n, st):
@@ -442,6 +481,8 @@ class Schema:
             return SV("iv", VIv(b, e, d), x=args[2].cls)
         if name == "IntervalTree":
             return self.new_tree(eng, args, st)
+        if name == "MultiDiGraph":
+            return self.nx.new_graph(eng, st)
         if name == "itertools.chain.from_iterable":
             outer = eng.bags_of(args[0], st)
             res = []
@@ -488,6 +529,10 @@ class Schema:
                 return eng.call_method(a, ci, "__len__", [], {}, st)
         if k == "str":
             return sv_int(z3.Length(a.t))
+        if k == "nx_edgeview":
+            E = self.nx.edges(eng, st, a.x[0])
+            st.facts.append(Card(E) >= 0)
+            return sv_int(Card(E))
         raise Unsupported("len of %s (cls=%s)" % (k, a.cls))
 
     # ----------------------------------------------------------- IntervalTree (assumed contract)
@@ -530,6 +575,10 @@ class Schema:
             return self.tree_method(eng, obj, name, args, st)
         if k in ("int", "bool") and name == "__index__":
             return obj
+        if k in ("ref", "val") and obj.cls == "$Graph":
+            return self.nx.method(eng, obj, name, args, kwargs, st)
+        if k == "nx_keydict" and name == "items":
+            return self.nx.keydict_items(eng, obj, st)
         raise Unsupported("method .%s on %s" % (name, k))
 
     def set_method(self, eng, obj, name, args, st):
